@@ -1,0 +1,205 @@
+//go:build verif
+
+// Add-only verification hook for property C10 (views and transposes): exposes the
+// matrix header, the raw backing storage and the private index/ij kernels.
+package autodiff
+
+import "sort"
+
+type VerifC10Hdr struct {
+  Sparse bool
+  Len, Rows, Cols, RowOffset, RowMax, ColOffset, ColMax int
+  Transposed bool
+}
+
+func VerifC10Header(m ConstMatrix) (VerifC10Hdr, bool) {
+  switch a := m.(type) {
+  case *DenseFloat64Matrix:
+    return VerifC10Hdr{false, len(a.values), a.rows, a.cols, a.rowOffset, a.rowMax, a.colOffset, a.colMax, a.transposed}, true
+  case *SparseFloat64Matrix:
+    return VerifC10Hdr{true, a.values.n, a.rows, a.cols, a.rowOffset, a.rowMax, a.colOffset, a.colMax, false}, true
+  case *DenseFloat32Matrix:
+    return VerifC10Hdr{false, len(a.values), a.rows, a.cols, a.rowOffset, a.rowMax, a.colOffset, a.colMax, a.transposed}, true
+  case *SparseFloat32Matrix:
+    return VerifC10Hdr{true, a.values.n, a.rows, a.cols, a.rowOffset, a.rowMax, a.colOffset, a.colMax, false}, true
+  case *DenseIntMatrix:
+    return VerifC10Hdr{false, len(a.values), a.rows, a.cols, a.rowOffset, a.rowMax, a.colOffset, a.colMax, a.transposed}, true
+  case *SparseIntMatrix:
+    return VerifC10Hdr{true, a.values.n, a.rows, a.cols, a.rowOffset, a.rowMax, a.colOffset, a.colMax, false}, true
+  case *DenseInt8Matrix:
+    return VerifC10Hdr{false, len(a.values), a.rows, a.cols, a.rowOffset, a.rowMax, a.colOffset, a.colMax, a.transposed}, true
+  case *SparseInt8Matrix:
+    return VerifC10Hdr{true, a.values.n, a.rows, a.cols, a.rowOffset, a.rowMax, a.colOffset, a.colMax, false}, true
+  case *DenseInt16Matrix:
+    return VerifC10Hdr{false, len(a.values), a.rows, a.cols, a.rowOffset, a.rowMax, a.colOffset, a.colMax, a.transposed}, true
+  case *SparseInt16Matrix:
+    return VerifC10Hdr{true, a.values.n, a.rows, a.cols, a.rowOffset, a.rowMax, a.colOffset, a.colMax, false}, true
+  case *DenseInt32Matrix:
+    return VerifC10Hdr{false, len(a.values), a.rows, a.cols, a.rowOffset, a.rowMax, a.colOffset, a.colMax, a.transposed}, true
+  case *SparseInt32Matrix:
+    return VerifC10Hdr{true, a.values.n, a.rows, a.cols, a.rowOffset, a.rowMax, a.colOffset, a.colMax, false}, true
+  case *DenseInt64Matrix:
+    return VerifC10Hdr{false, len(a.values), a.rows, a.cols, a.rowOffset, a.rowMax, a.colOffset, a.colMax, a.transposed}, true
+  case *SparseInt64Matrix:
+    return VerifC10Hdr{true, a.values.n, a.rows, a.cols, a.rowOffset, a.rowMax, a.colOffset, a.colMax, false}, true
+  case *DenseReal64Matrix:
+    return VerifC10Hdr{false, len(a.values), a.rows, a.cols, a.rowOffset, a.rowMax, a.colOffset, a.colMax, a.transposed}, true
+  case *SparseReal64Matrix:
+    return VerifC10Hdr{true, a.values.n, a.rows, a.cols, a.rowOffset, a.rowMax, a.colOffset, a.colMax, false}, true
+  case *DenseReal32Matrix:
+    return VerifC10Hdr{false, len(a.values), a.rows, a.cols, a.rowOffset, a.rowMax, a.colOffset, a.colMax, a.transposed}, true
+  case *SparseReal32Matrix:
+    return VerifC10Hdr{true, a.values.n, a.rows, a.cols, a.rowOffset, a.rowMax, a.colOffset, a.colMax, false}, true
+  }
+  return VerifC10Hdr{}, false
+}
+
+// raw dense storage, element k as float64
+func VerifC10Storage(m ConstMatrix) []float64 {
+  var r []float64
+  switch a := m.(type) {
+  case *DenseFloat64Matrix:
+    for _, v := range a.values { r = append(r, float64(v)) }
+  case *DenseFloat32Matrix:
+    for _, v := range a.values { r = append(r, float64(v)) }
+  case *DenseIntMatrix:
+    for _, v := range a.values { r = append(r, float64(v)) }
+  case *DenseInt8Matrix:
+    for _, v := range a.values { r = append(r, float64(v)) }
+  case *DenseInt16Matrix:
+    for _, v := range a.values { r = append(r, float64(v)) }
+  case *DenseInt32Matrix:
+    for _, v := range a.values { r = append(r, float64(v)) }
+  case *DenseInt64Matrix:
+    for _, v := range a.values { r = append(r, float64(v)) }
+  case *DenseReal64Matrix:
+    for _, v := range a.values { r = append(r, v.GetFloat64()) }
+  case *DenseReal32Matrix:
+    for _, v := range a.values { r = append(r, v.GetFloat64()) }
+  }
+  return r
+}
+
+// raw sparse storage: the stored (index, value) pairs in ascending index order, and the length
+func VerifC10SparseStorage(m ConstMatrix) ([]int, []float64, int) {
+  idx := []int{}
+  val := map[int]float64{}
+  n := 0
+  switch a := m.(type) {
+  case *SparseFloat64Matrix:
+    n = a.values.n
+    for k, v := range a.values.values { idx = append(idx, k); val[k] = v.GetFloat64() }
+  case *SparseFloat32Matrix:
+    n = a.values.n
+    for k, v := range a.values.values { idx = append(idx, k); val[k] = v.GetFloat64() }
+  case *SparseIntMatrix:
+    n = a.values.n
+    for k, v := range a.values.values { idx = append(idx, k); val[k] = v.GetFloat64() }
+  case *SparseInt8Matrix:
+    n = a.values.n
+    for k, v := range a.values.values { idx = append(idx, k); val[k] = v.GetFloat64() }
+  case *SparseInt16Matrix:
+    n = a.values.n
+    for k, v := range a.values.values { idx = append(idx, k); val[k] = v.GetFloat64() }
+  case *SparseInt32Matrix:
+    n = a.values.n
+    for k, v := range a.values.values { idx = append(idx, k); val[k] = v.GetFloat64() }
+  case *SparseInt64Matrix:
+    n = a.values.n
+    for k, v := range a.values.values { idx = append(idx, k); val[k] = v.GetFloat64() }
+  case *SparseReal64Matrix:
+    n = a.values.n
+    for k, v := range a.values.values { idx = append(idx, k); val[k] = v.GetFloat64() }
+  case *SparseReal32Matrix:
+    n = a.values.n
+    for k, v := range a.values.values { idx = append(idx, k); val[k] = v.GetFloat64() }
+  }
+  sort.Ints(idx)
+  r := make([]float64, len(idx))
+  for i, k := range idx { r[i] = val[k] }
+  return idx, r, n
+}
+
+// the private kernels; VerifC10Index panics exactly when index() does
+func VerifC10Index(m ConstMatrix, i, j int) int {
+  switch a := m.(type) {
+  case *DenseFloat64Matrix:
+    return a.index(i, j)
+  case *SparseFloat64Matrix:
+    return a.index(i, j)
+  case *DenseFloat32Matrix:
+    return a.index(i, j)
+  case *SparseFloat32Matrix:
+    return a.index(i, j)
+  case *DenseIntMatrix:
+    return a.index(i, j)
+  case *SparseIntMatrix:
+    return a.index(i, j)
+  case *DenseInt8Matrix:
+    return a.index(i, j)
+  case *SparseInt8Matrix:
+    return a.index(i, j)
+  case *DenseInt16Matrix:
+    return a.index(i, j)
+  case *SparseInt16Matrix:
+    return a.index(i, j)
+  case *DenseInt32Matrix:
+    return a.index(i, j)
+  case *SparseInt32Matrix:
+    return a.index(i, j)
+  case *DenseInt64Matrix:
+    return a.index(i, j)
+  case *SparseInt64Matrix:
+    return a.index(i, j)
+  case *DenseReal64Matrix:
+    return a.index(i, j)
+  case *SparseReal64Matrix:
+    return a.index(i, j)
+  case *DenseReal32Matrix:
+    return a.index(i, j)
+  case *SparseReal32Matrix:
+    return a.index(i, j)
+  }
+  panic("VerifC10Index: unknown matrix type")
+}
+func VerifC10IJ(m ConstMatrix, k int) (int, int) {
+  switch a := m.(type) {
+  case *DenseFloat64Matrix:
+    return a.ij(k)
+  case *SparseFloat64Matrix:
+    return a.ij(k)
+  case *DenseFloat32Matrix:
+    return a.ij(k)
+  case *SparseFloat32Matrix:
+    return a.ij(k)
+  case *DenseIntMatrix:
+    return a.ij(k)
+  case *SparseIntMatrix:
+    return a.ij(k)
+  case *DenseInt8Matrix:
+    return a.ij(k)
+  case *SparseInt8Matrix:
+    return a.ij(k)
+  case *DenseInt16Matrix:
+    return a.ij(k)
+  case *SparseInt16Matrix:
+    return a.ij(k)
+  case *DenseInt32Matrix:
+    return a.ij(k)
+  case *SparseInt32Matrix:
+    return a.ij(k)
+  case *DenseInt64Matrix:
+    return a.ij(k)
+  case *SparseInt64Matrix:
+    return a.ij(k)
+  case *DenseReal64Matrix:
+    return a.ij(k)
+  case *SparseReal64Matrix:
+    return a.ij(k)
+  case *DenseReal32Matrix:
+    return a.ij(k)
+  case *SparseReal32Matrix:
+    return a.ij(k)
+  }
+  panic("VerifC10IJ: unknown matrix type")
+}
